@@ -46,11 +46,18 @@ CLAIMED = {
         "text": "For every relocation type number and every 64-bit value CBMC proves on the real tables and the real write_to_buffer: a value both GNU ld and lld accept is accepted, a value both reject is rejected, the field width is the psABI's, an accepted value reads back from the written bytes as itself (never silently truncated), and an error leaves the buffer untouched; for AArch64 additionally that the written instruction field is X[hi:lo] of the psABI row. The tables are const match expressions without loops, so the whole domain is covered symbolically.",
         "note": "Trusted: the hand transcription of bfd's howto table, lld's relocate() checks and aaelf64 5.7 (rows whose check could not be transcribed confidently are marked Unknown and get only oracle-free obligations); format/backtrace stubs on the error path. Not covered: the computation of the value handed to write_to_buffer (apply_relocation), RISC-V and LoongArch tables, ULEB128 pairs.",
     },
+    "C14": {
+        "category": "proof",
+        "design_ref": "DESIGN.md section 6, C14",
+        "technique": "Kani loop-free full-domain harnesses on the real <ElfX86_64 as Arch>::new_relaxation, TlsGdForm::identify, RelaxationKind::{apply,next_modifier} and write_to_buffer, against an x86 decoder/evaluator written from the psABI; symbolic 24-byte window x flags x output kind x symbol value x section address",
+        "text": "For every byte window that is a psABI-permitted instruction form (no prefix, REX, APX REX2), every ValueFlags/OutputKind, every symbol value and section address, CBMC proves on the real code: if a relaxation is returned then the rewritten instruction is the same operation on the same register (REX.R->REX.B, REX2 R3/R4->B3/B4) and feeds it exactly the value the original would with its GOT slot holding S - including sign extension of imm32 under REX.W - or the link fails with an overflow; nothing outside the instruction changes; TLS GD/LD/TLSDESC replacements equal the ABI's byte sequences and skip the paired relocation; rewrites happen only in executable sections and never bypass the GOT for interposable symbols. The functions are loop-free, so the whole input space is symbolic: a proof.",
+        "note": "Trusted: the spec decoder/evaluator (psABI B.2/11.1, Intel SDM opcode map, APX REX2 layout); caller_value() models the three lines of apply_relocation between Relaxation::apply and write_to_buffer (value = S+A or S+A-place) because that 470-line generic function is out of Kani's reach; original addend assumed -4. CODE_5/CODE_6 (EVEX) forms, TlsGdToLocalExecLarge and TlsLdToLocalExec64 get only guard/frame obligations. Behaviour on byte windows that are not psABI forms is C22's subject, not this check's.",
+    },
 }
 
 PENDING = {
     pid: "check under construction in this session (planned claim, see DESIGN.md section 6); not claimed until its obligations run green"
-    for pid in ["C01", "C02", "C08", "C09", "C11", "C14", "C15", "C16", "C17", "C22", "C30", "C36"]
+    for pid in ["C01", "C02", "C08", "C09", "C11", "C15", "C16", "C17", "C22", "C30", "C36"]
 }
 
 NOT_APPLICABLE = {
